@@ -429,6 +429,25 @@ def genTopoSet : M SchemaSet := do
 def runTopo (seed : Nat) : SchemaSet :=
   (genTopoSet.run { seed := seed * 2654435761 + 4242 }).1
 
+/-- the plain fragment of `Props/C02Read`: one file; complex types without derivation whose members are named,
+    typed declarations (builtins or the file's other complex types), nested sequences and choices, attributes -/
+def genPlainSet : M SchemaSet := do
+  let u ← pick uriPool
+  let n := 1 + (← below 5)
+  let mut items : List Planned := []
+  for k in [0:n] do
+    items := items ++ [{ ns := 0, name := (← freshTypeName 0), kind := "complex", rank := k }]
+  let plan : Plan := { items := items, lookupOk := fun _ _ => false, typeOk := fun i j => i == j }
+  let mut comps : List Component := []
+  for it in items do
+    let doc ← if (← chance 1 4) then pure (some (← pick docPool)) else pure none
+    comps := comps ++ [.complexType it.name (← genComplexDef plan it false) doc]
+  let style ← below 2
+  pure { uris := [u], files := [{ fileName := "f0.xsd", tns := 0, prefixes := [(0, if style == 0 then "tns" else "p0")], imports := [], comps := comps }], start := 0 }
+
+def runPlain (seed : Nat) : SchemaSet :=
+  (genPlainSet.run { seed := seed * 2654435761 + 999 }).1
+
 def urlPool : List (String × String) := [
   ("http://localhost:8080/svc", "http://localhost:8080/svc"), ("https://example.com/soap/endpoint", "https://example.com/soap/endpoint"),
   ("http://example.com", "http://example.com/"), ("http://EXAMPLE.com:80/a/../b", "http://example.com/b"),
